@@ -33,6 +33,7 @@ type waiter struct {
 	point string
 	ch    chan struct{}
 	gid   uint64
+	lock  string // the goroutine is about to lock this emulated mutex ("<name>:lock" point)
 }
 
 // Stick is the smallest tape value that means "release the goroutine released last time again, if it is
@@ -44,6 +45,7 @@ type Step struct {
 	Point  string   `json:"point"`
 	K      int      `json:"k"`
 	Others []string `json:"others,omitempty"` // points of the goroutines left parked
+	N      int      `json:"n,omitempty"`      // number of goroutines that could have been released (eligible)
 }
 
 func (st Step) String() string { return fmt.Sprintf("%s(%d|%v)", st.Point, st.K, st.Others) }
@@ -72,6 +74,11 @@ type Sched struct {
 	// goroutines that became runnable together reach their yield points in a different order.
 	Canonical bool
 	roles     map[uint64]string
+	// held maps the name of an announced mutex ("<name>:lock" before Lock, "<name>:acquired" after it,
+	// "<name>:released" after Unlock) to its holder. A goroutine parked at "<name>:lock" is released only
+	// while nobody holds <name>, so the real Lock never blocks and holders may be parked inside the critical
+	// section like everybody else.
+	held map[string]uint64
 }
 
 func roleOf(point string) string {
@@ -83,14 +90,16 @@ func roleOf(point string) string {
 	if p == "d" || p == "flush" {
 		return p
 	}
-	if len(p) >= 2 && (p[0] == 'w' || p[0] == 'r') && p[1] >= '0' && p[1] <= '9' {
+	if len(p) >= 2 && (p[0] == 'w' || p[0] == 'r' || p[0] == 'g' || p[0] == 'h') && p[1] >= '0' && p[1] <= '9' {
 		return p
 	}
 	return ""
 }
 
 // New returns an active scheduler.
-func New() *Sched { return &Sched{locked: map[uint64]int{}, roles: map[uint64]string{}} }
+func New() *Sched {
+	return &Sched{locked: map[uint64]int{}, roles: map[uint64]string{}, held: map[string]uint64{}}
+}
 
 // Yield parks the calling goroutine until the controller releases it.
 func (s *Sched) Yield(point string) {
@@ -102,6 +111,14 @@ func (s *Sched) Yield(point string) {
 	switch {
 	case strings.HasSuffix(point, ":locked"):
 		s.locked[goid()]++
+		s.mu.Unlock()
+		return
+	case strings.HasSuffix(point, ":acquired"):
+		s.held[strings.TrimSuffix(point, ":acquired")] = goid()
+		s.mu.Unlock()
+		return
+	case strings.HasSuffix(point, ":released"):
+		delete(s.held, strings.TrimSuffix(point, ":released"))
 		s.mu.Unlock()
 		return
 	case strings.HasSuffix(point, ":unlocking"):
@@ -121,6 +138,9 @@ func (s *Sched) Yield(point string) {
 		return
 	}
 	w := &waiter{point: point, ch: make(chan struct{}), gid: goid()}
+	if strings.HasSuffix(point, ":lock") {
+		w.lock = strings.TrimSuffix(point, ":lock")
+	}
 	if r := roleOf(point); r != "" {
 		s.roles[w.gid] = r
 	}
@@ -163,6 +183,23 @@ func (s *Sched) Run(tape []int, done func() bool, maxSteps int, tick time.Durati
 			time.Sleep(tick)
 			continue
 		}
+		// goroutines waiting for an emulated mutex that is held are not eligible
+		elig := make([]int, 0, n)
+		for i, w := range s.parked {
+			if w.lock == "" || s.held[w.lock] == 0 {
+				elig = append(elig, i)
+			}
+		}
+		if len(elig) == 0 {
+			// everybody parked waits for a mutex whose holder is busy elsewhere (sleeping, blocked): let time pass
+			s.mu.Unlock()
+			idle++
+			if idle > 200 {
+				return false
+			}
+			time.Sleep(tick)
+			continue
+		}
 		idle = 0
 		if s.Canonical {
 			sort.SliceStable(s.parked, func(i, j int) bool {
@@ -173,22 +210,32 @@ func (s *Sched) Run(tape []int, done func() bool, maxSteps int, tick time.Durati
 				return s.parked[i].point < s.parked[j].point
 			})
 		}
-		k := 0
+		if s.Canonical {
+			// recompute after sorting
+			elig = elig[:0]
+			for i, w := range s.parked {
+				if w.lock == "" || s.held[w.lock] == 0 {
+					elig = append(elig, i)
+				}
+			}
+		}
+		ke := 0
 		if s.Steps < len(tape) {
 			tv := tape[s.Steps]
 			if tv < 0 {
 				tv = -tv
 			}
-			k = tv % n
+			ke = tv % len(elig)
 			if tv >= Stick {
-				for i, w := range s.parked {
-					if w.gid == s.last {
-						k = i
+				for j, i := range elig {
+					if s.parked[i].gid == s.last {
+						ke = j
 						break
 					}
 				}
 			}
 		}
+		k := elig[ke]
 		w := s.parked[k]
 		s.last = w.gid
 		s.parked = append(s.parked[:k:k], s.parked[k+1:]...)
@@ -196,7 +243,7 @@ func (s *Sched) Run(tape []int, done func() bool, maxSteps int, tick time.Durati
 		for _, o := range s.parked {
 			others = append(others, o.point)
 		}
-		s.Trace = append(s.Trace, Step{Point: w.point, K: k, Others: others})
+		s.Trace = append(s.Trace, Step{Point: w.point, K: ke, Others: others, N: len(elig)})
 		step := s.Steps
 		s.Steps++
 		s.mu.Unlock()
